@@ -207,8 +207,7 @@ def main(tier, seed):
     for part in core.pmap(_run, jobs):
         rep.merge(part)
     c = rep.counters
-    if not c["invocations"]:
-        raise core.Inconclusive("tool never ran")
+    rep.require(not (not c["invocations"]), "tool never ran")
     rep.assumptions += ["the tool is linked as bin/Makefile links it (its own utf8_decode.c interposes the library's decoder)",
                         "echo is compared only for well-formed, control-free UTF-8 lines (the statement's scope)"]
     return rep.finish(c["lines.expected"] + c["files"], rep.distinct_count,
